@@ -429,4 +429,128 @@ theorem out_closed_eval {w : Val} (ho : OutT w = true) (hc : closedRef w = true)
     | str _ => simpa [ValP, OutT] using ho
   exact evOK_of_vok (ValP_nil_argT hP) (vok_of_valOK hP hok)
 
+
+/-! ### `KnownRefsOK` is decidable -/
+
+/-- a slice with literal bounds of a source of size `k`: non-zero step, non-negative start, first and last element inside -/
+def sliceOKb (ia ib is k : Int) : Bool :=
+  decide (is ≠ 0) && decide (0 ≤ ia) &&
+    (decide (rangeLenI ia ib is ≤ 0) ||
+      (decide (ia < k) && decide (0 ≤ ia + (rangeLenI ia ib is - 1) * is) &&
+        decide (ia + (rangeLenI ia ib is - 1) * is < k)))
+
+theorem sliceOKb_iff (ia ib is k : Int) : sliceOKb ia ib is k = true ↔
+    (is ≠ 0 ∧ 0 ≤ ia ∧ ∀ j, 0 ≤ j → j < rangeLenI ia ib is → 0 ≤ ia + j * is ∧ ia + j * is < k) := by
+  generalize hlen : rangeLenI ia ib is = len
+  simp only [sliceOKb, hlen, Bool.and_eq_true, Bool.or_eq_true, decide_eq_true_eq]
+  constructor
+  · rintro ⟨⟨hs, ha⟩, hd⟩
+    refine ⟨hs, ha, fun j hj0 hj => ?_⟩
+    rcases hd with hd | ⟨⟨h1, h2⟩, h3⟩
+    · omega
+    · have e : (len - 1 - j) * is = (len - 1) * is - j * is := by ring
+      rcases Int.lt_or_gt_of_ne hs with hneg | hpos
+      · have a1 : j * is ≤ 0 := Int.mul_nonpos_of_nonneg_of_nonpos hj0 (by omega)
+        have a2 : (len - 1 - j) * is ≤ 0 := Int.mul_nonpos_of_nonneg_of_nonpos (by omega) (by omega)
+        constructor <;> linarith
+      · have a1 : 0 ≤ j * is := Int.mul_nonneg hj0 (by omega)
+        have a2 : 0 ≤ (len - 1 - j) * is := Int.mul_nonneg (by omega) (by omega)
+        constructor <;> linarith
+  · rintro ⟨hs, ha, hall⟩
+    refine ⟨⟨hs, ha⟩, ?_⟩
+    by_cases hl : len ≤ 0
+    · exact Or.inl hl
+    · right
+      have h0 := hall 0 (by omega) (by omega)
+      have h1 := hall (len - 1) (by omega) (by omega)
+      simp only [Int.zero_mul, Int.add_zero] at h0
+      exact ⟨⟨h0.2, h1.1⟩, h1.2⟩
+
+/-- the boolean checker of `Builder.ValOK` -/
+def refOKb : Val → Bool
+  | .qubit _ src idx => refOKb src && (Builder.isRegister src || Builder.isParam src) &&
+      (match idx with
+       | .int i => (match litSize src with
+         | some k => decide (0 ≤ i) && decide (i < k)
+         | Option.none => true)
+       | _ => true)
+  | .regF _ size => (match size with
+      | .int k => decide (1 ≤ k)
+      | _ => true)
+  | .regA _ src => refOKb src && (Builder.isRegister src || Builder.isParam src)
+  | .regS _ src a b s => refOKb src && (Builder.isRegister src || Builder.isParam src) &&
+      (match a with
+       | .int ia => (match b with
+         | .int ib => (match s with
+           | .int is => (match litSize src with
+             | some k => sliceOKb ia ib is k
+             | Option.none => true)
+           | _ => true)
+         | _ => true)
+       | _ => true)
+  | _ => true
+
+theorem refOKb_iff : ∀ v : Val, refOKb v = true ↔ ValOK v := by
+  intro v
+  induction v with
+  | qubit n src idx ihs _ =>
+    simp only [refOKb, ValOK, Bool.and_eq_true, Bool.or_eq_true, ihs]
+    rw [and_assoc]
+    refine and_congr Iff.rfl (and_congr Iff.rfl ?_)
+    cases idx <;> cases hl : litSize src <;> simp
+  | regF n size _ =>
+    simp only [refOKb, ValOK]
+    cases size <;> simp
+  | regA n src ih =>
+    simp only [refOKb, ValOK, Bool.and_eq_true, Bool.or_eq_true, ih]
+  | regS n src a b s ihs _ _ _ =>
+    simp only [refOKb, ValOK, Bool.and_eq_true, Bool.or_eq_true, ihs]
+    rw [and_assoc]
+    refine and_congr Iff.rfl (and_congr Iff.rfl ?_)
+    cases a with
+    | int ia =>
+      cases b with
+      | int ib =>
+        cases s with
+        | int is =>
+          cases hl : litSize src with
+          | none => simp
+          | some k =>
+            simp only [sliceOKb_iff]
+            constructor
+            · intro h ia' ib' is' k' e1 e2 e3 e4
+              cases e1; cases e2; cases e3; cases e4
+              exact h
+            · intro h
+              exact h ia ib is k rfl rfl rfl rfl
+        | _ => simp
+      | _ => simp
+    | _ => simp
+  | int _ => simp [refOKb, ValOK]
+  | flt _ => simp [refOKb, ValOK]
+  | const _ _ _ => simp [refOKb, ValOK]
+  | param _ _ => simp [refOKb, ValOK]
+  | none => simp [refOKb, ValOK]
+  | str _ => simp [refOKb, ValOK]
+
+instance (v : Val) : Decidable (ValOK v) := decidable_of_iff _ (refOKb_iff v)
+
+/-- the boolean checker of `KnownRefsOK` -/
+def knownRefsB (c : Circuit) : Bool :=
+  c.registers.all refOKb && FillIn.allValsB refOKb c.body && c.macros.all (fun m => FillIn.allValsB refOKb m.body)
+
+theorem knownRefsB_iff (c : Circuit) : knownRefsB c = true ↔ KnownRefsOK c := by
+  simp only [knownRefsB, Bool.and_eq_true, List.all_eq_true, FillIn.allValsB_iff refOKb_iff, refOKb_iff]
+  exact ⟨fun h => ⟨h.1.1, h.1.2, h.2⟩, fun h => ⟨⟨h.registers, h.body⟩, h.macros⟩⟩
+
+instance (c : Circuit) : Decidable (KnownRefsOK c) := decidable_of_iff _ (knownRefsB_iff c)
+
+/-- non-vacuity: `register r[4]; map a r[3:0:-1]`, `g a[2]` is `KnownRefsOK`, `g a[3]` is not (the alias has 3 elements) -/
+def exCirc (i : Int) : Circuit :=
+  { registers := [.regF "r" (.int 4), .regS "a" (.regF "r" (.int 4)) (.int 3) (.int 0) (.int (-1))],
+    body := .block false false (.int 1)
+      [.gate "g" (anonDef "g" 1) [("p0", .qubit "a[i]" (.regS "a" (.regF "r" (.int 4)) (.int 3) (.int 0) (.int (-1))) (.int i))]] }
+example : KnownRefsOK (exCirc 2) := by decide +kernel
+example : ¬ KnownRefsOK (exCirc 3) := by decide +kernel
+
 end Jaqal.Stages
